@@ -249,3 +249,21 @@ def forward_open_path(frame):
     if msg[0] == 0x5B and len(data) >= 39:
         return data[39:]
     return None
+
+
+def connection_triad(frame):
+    """(connection serial number, vendor id, originator serial number) named by a Forward Open / Large Forward Open / Forward Close
+    request -- what a target identifies the connection by; None for any other frame"""
+    from spec.encap import try_parse_frame
+    p = try_parse_frame(frame)
+    if p is None or p[0] != 0x6F:
+        return None
+    msg = p[3][1]
+    if len(msg) < 2:
+        return None
+    data = msg[2 + 2 * msg[1]:]
+    if msg[0] in (0x54, 0x5B) and len(data) >= 18:
+        return (data[10:12], data[12:14], data[14:18])
+    if msg[0] == 0x4E and len(data) >= 10:
+        return (data[2:4], data[4:6], data[6:10])
+    return None
